@@ -324,9 +324,6 @@ theorem commitFlagged_inv {s : State} (h : Inv s) (ha : s.inAgg = false) :
     exact b (hsub k a)
   exact ⟨⟨fun k hk => by simp [commitFlagged, hst] at hk, h.cnt, h.nag, fun _ => hst⟩, hst, rfl⟩
 
-/-- Commit / Rollback are not called inside an aggressive-locking stage that holds keys -/
-def endOk (s : State) : Bool := !(s.inAgg && !s.current.isEmpty)
-
 theorem rollbackStep_inv {s : State} (h : Inv s) (hok : endOk s = true) :
     Inv (rollbackStep s) ∧ (rollbackStep s).store = [] ∧ (rollbackStep s).closed = true := by
   unfold rollbackStep
@@ -352,38 +349,6 @@ theorem commitStep_inv {s : State} (h : Inv s) (hok : endOk s = true) :
     exact commitFlagged_inv h (by simpa using ha)
 
 /-! ### lockKeys: the store's contract, the excluded situations -/
-
-/-- what the proofs assume about the answers of the store to one PessimisticLock request (per request, one region):
-    * a LockOnlyIfExists request does not lock a key it reports as not existing;
-    * a locked-with-conflict ts is greater than the request's for-update ts;
-    * a request answered with write conflict / key exists has locked none of its keys. -/
-def wfLock (i : LockIn) : Bool :=
-  i.ans.all (fun a => (!(i.o.loie && !a.exist) || !a.acq) && (a.lwc == 0 || decide (i.fu < a.lwc))) &&
-  (match i.err with
-   | some .wc => i.ans.all (fun a => !a.acq)
-   | some .ke => i.ans.all (fun a => !a.acq)
-   | _ => true)
-
-/-- the key of lastRetryUnnecessaryLocks a one-key call inside aggressive locking is about -/
-def relock (s : State) (i : LockIn) : Option Key :=
-  match i.keys with
-  | [k] => if s.inAgg && (findE s.lastRetry k).isSome then some k else none
-  | _ => none
-
-/-- THE EXCLUDED SITUATION of the partial theorems: a LockKeys call inside aggressive locking for a key of
-    lastRetryUnnecessaryLocks whose request is answered so that lockKeys neither registers the key in
-    currentLockedKeys nor rolls it back — (a) success with LockOnlyIfExists and "not found" (the key is skipped),
-    (b) write conflict / key exists for the single key ("no need to do pessimistic rollback").
-    (If no request is sent the answer fields are empty by convention and the call is not excluded.) -/
-def excludedLock (s : State) (i : LockIn) : Bool :=
-  match relock s i with
-  | some k =>
-    (match i.err with
-     | none => skipKey i k
-     | some .wc => true
-     | some .ke => true
-     | some _ => false)
-  | none => false
 
 theorem ansOf_cases (i : LockIn) (k : Key) : ansOf i k ∈ i.ans ∨ ansOf i k = { key := k } := by
   unfold ansOf
@@ -898,28 +863,6 @@ theorem lockStep_inv {s : State} {i : LockIn} (h : Inv s) (hcl : s.closed = fals
 
 theorem pneStep_inv {s : State} (h : Inv s) (k : Key) : Inv (pneStep s k) :=
   h.of_eq rfl rfl rfl rfl rfl rfl rfl
-
-/-- what the partial theorems require of one op in the state it is applied to: the store's contract for the answers of a
-    lock call, no lock call in the excluded situation, no Commit / Rollback inside an aggressive-locking stage that
-    holds keys (which the code answers with an error and a closed transaction) -/
-def okStep (s : State) (op : Op) : Bool :=
-  match op with
-  | .lock i => wfLock i && !excludedLock s i
-  | .rollback => endOk s
-  | .commit => endOk s
-  | _ => true
-
-/-- the store's contract alone -/
-def wfStep (op : Op) : Bool :=
-  match op with
-  | .lock i => wfLock i
-  | _ => true
-
-def Admissible : State → List Op → Bool
-  | _, [] => true
-  | s, op :: ops => (s.closed || okStep s op) && Admissible (step s op) ops
-
-def WellFormed (ops : List Op) : Bool := ops.all wfStep
 
 theorem clearOut_inv {s : State} (h : Inv s) : Inv (clearOut s) := h.of_eq rfl rfl rfl rfl rfl rfl rfl
 
